@@ -23,7 +23,12 @@ read) pair is recorded; then
     cells of the input block in those columns) — is an ancestor of the formula
     cell in dep_graph;
   * perturbing an input cell that is not an ancestor of a formula cell in
-    dep_graph never changes that cell's value."""
+    dep_graph never changes that cell's value.
+The workbooks also hold references to the formula cell's own coordinate on the
+other sheet (Sheet2!H3 = Sheet1!H3*2, =SUM(Sheet1!H3:H4), with ROW()/COLUMN()
+without argument nearby); a second stream (build_unbounded_workbook) puts a
+whole-column / whole-row reference next to the explicit range it stands for,
+either one compiled first."""
 import logging
 import re
 
@@ -695,7 +700,11 @@ def run(ctx):
         "ranges, nested intersection operators, ROW/COLUMN/INDEX/IF/SUM arguments) plus the C02 tree stream, rendered "
         "with random parentheses and white space; oracle: PRNG workbooks (2 sheets x 9 inputs, 8-21 formulas over 20 "
         "reference-form templates incl. defined names, multi-colon, union, CSE members, whole-column ranges, chains "
-        "through other formula cells; about one input cell in eight is blank); a case is non-trivial when it is a distinct formula text, (workbook, cell, read) triple, edge or "
+        "through other formula cells; about one input cell in eight is blank; 0-3 cells that read the cell / a range at "
+        "their OWN coordinate on the other sheet, with ROW()/COLUMN() without argument; every third workbook first "
+        "evaluated in a shuffled order) and 150 workbooks with a whole-column / whole-row reference next to the "
+        "explicit range it stands for (A:A <-> A1:A{max_row}, 2:2 <-> A2:{max_column}2; separate cells or one formula, "
+        "either order; random first-evaluation order); a case is non-trivial when it is a distinct formula text, (workbook, cell, read) triple, edge or "
         "(workbook, perturbed input, formula cell) triple; graph traces: PRNG single-sheet DAG workbooks of "
         "harness/wbgen.py (5-11 cells, ranges, nested ranges) x 6-12 evaluate/set_value operations, the set of "
         "(reader, read) pairs of every evaluate compared with Model/ReadTrace.v and checked against the generated "
